@@ -1,9 +1,12 @@
 import Norad.Lemmas.C12
 import Norad.Lemmas.GlifTables
 import Norad.Lemmas.JudgeLink
+import Norad.Lemmas.JudgeDoc
+import Norad.Lemmas.JudgeConverse
 import Norad.Generated.GlifParser
 import Norad.Lemmas.C02
 import Norad.Lemmas.GlifGen
+import Norad.Lemmas.GlifGenV1
 import Norad.Props.C11
 /-!
 # C12 — glif documents breaking the structure rules are rejected, legal ones accepted
@@ -614,9 +617,15 @@ theorem attr_order_irrelevant (s : PS) {l₁ l₂ : List Attr} (hp : l₁.Perm l
 --   advance_/unicode_clean_accepted` show that the model's attribute loop then succeeds for ANY attribute order (under
 --   `ReadsNumerals rd`: Rust reads every plain decimal numeral; identifier not seen before), and `clean_element_step` packages
 --   them: a judge-clean self-closing element is accepted in any parser state at its level.
--- OPEN: the document level of that link — a fold over `Spec.Doc` items with the global clauses of `Spec.judge` (once-only counts,
---   `hasDup (docIdents d)`, `contourCheck`'s `legalB` against the parsed points, the `glyph` start tag, object libs) so that
---   `Spec.judge rd d = ([], false)` alone gives `parseGlif rd (Spec.flatten d) = .ok _`;
+-- Document level (`Lemmas/JudgeDoc.lean`, audited): **`judge_clean_accepted`** — `Spec.judge rd d = ([], false)` and the shape the
+--   tokeniser delivers (`Shaped d`: attribute names pairwise different, prolog of declaration/comments, no `</lib>`/error inside a lib,
+--   readable note text, and the three spellings the recorded findings exclude) give `∃ g, parseGlif rd (Spec.flatten d) = .ok g`, for
+--   format 1 and format 2, under `ReadsNumerals rd`.  No lib hypothesis is needed: `judge`'s `objectLibsCheck` gives it.
+-- Converse, for a fragment (`Lemmas/JudgeConverse.lean`): **`judge_hard_error_rejected`** — clean items up to a position, then an item with a
+--   hard error of `HardFlag` (unknown element; anchor/guideline/image/note in format 1; unknown attribute on advance, unicode, anchor,
+--   guideline, image; lib not a dictionary) ⇒ rejected; `hardFlag_flagged`: each of these is an item `judge` flags.
+-- OPEN (converse): the other clause families at document level (duplicates, identifier clashes, required attributes, value errors,
+--   errors inside `outline`), which need lower bounds on the state after a clean prefix.
 --   and format 1.  Earlier note, kept:
 -- (was OPEN) legal_accepted for the whole grammar `Spec.flatten d` (any element order, comments anywhere, both versions).
 --   Kernel-checked instead (second phase, `Lemmas/C02.lean`, listed in the audit): acceptance element family by element
@@ -1197,5 +1206,94 @@ example :
     (s := { g := { name := ['a'] }, ver := 2 })
     (e := { name := sAnchor, attrs := some [(['y'], ['2']), ("name".toList, ['t']), (['x'], ['1'])] })
     (by decide +kernel) (by intro as v _ _ h; cases h)).2.2.1 rfl rfl
+
+/-! ### legal documents are accepted: format 1 of the generative grammar -/
+
+section
+variable {f : Fmt} {rd : Str → Option Nat} {nc : Color → Color} {ok : Nat → Prop}
+
+/-- **legal_accepted, format 1**: a format-1 document of the generative grammar (`renderV1`: no identifiers, none of
+    anchor/guideline/image/note — the format-1 refusals extracted from `parse.rs`), and every document that differs from it
+    only in attribute order, is accepted and returns `loadObjectLibs (interpV1 d)`; the single named `move` points have
+    become anchors (`v1_single_named_move_becomes_anchor`). -/
+theorem legal_accepted_v1 (hc : Codec f rd nc ok) (d : GDoc) (hp : ∀ e, e ∈ d.prolog → isProlog e = true)
+    (hn : validName d.name = true) (hL : LegalItemsV1 ok d.items)
+    (hol : ∀ v, dictGet objectLibsKey (interpV1 d).lib = some v → ∃ ol, v = PV.dict ol ∧ AllDicts ol)
+    {evs : List Ev} (hperm : EvsPerm (renderV1 f d) evs) :
+    ∃ g, parseGlif rd evs = .ok g ∧ loadObjectLibs (interpV1 d) = .ok g := by
+  obtain ⟨g, hg⟩ := loadObjectLibs_ok hol
+  refine ⟨g, ?_, hg⟩
+  rw [← parseGlif_attr_order_irrelevant rd hperm, legal_accepted_gdoc_v1 hc d hp hn hL, hg]
+
+end
+
+/-! ### a `judge`-clean document is accepted: non-vacuity -/
+
+def jd0 : Spec.Doc :=
+  { prolog := [.decl, .comment],
+    gattrs := some [("format".toList, ['2']), ("name".toList, ['a'])],
+    items := [.comment,
+      .elem { name := sAnchor, attrs := some [(['y'], ['2']), (sIdentifier, ['i']), (['x'], ['1'])] },
+      .outline (some []) false [.comment,
+        .contour (some [(sIdentifier, ['c'])]) false
+          [.elem { name := sPoint, attrs := some [(['x'], ['0']), ("type".toList, "line".toList), (['y'], ['0'])] }, .comment],
+        .contour (some []) true [],
+        .elem { name := sComponent, attrs := some [("base".toList, ['b'])] }],
+      .elem { name := sAdvance, attrs := some [("width".toList, "500".toList)] },
+      .lib (some []) (.dict [(['k'], .atom "b1")]) [.other],
+      .note (some []) [.text (some ['n']), .comment]] }
+
+def jd1 : Spec.Doc :=
+  { prolog := [], gattrs := some [("name".toList, ['a']), ("format".toList, ['1'])],
+    items := [.outline (some []) false
+      [.contour (some []) false
+        [.elem { name := sPoint, attrs := some [(['x'], ['0']), ("type".toList, "move".toList), (['y'], ['0']), ("name".toList, ['t'])] }]]] }
+
+theorem jd0_clean : Spec.judge (fun _ => some 0) jd0 = ([], false) := by decide +kernel
+theorem jd1_clean : Spec.judge (fun _ => some 0) jd1 = ([], false) := by decide +kernel
+
+theorem jd0_shaped : Shaped jd0 := by
+  refine ⟨by decide, by intro as h; cases h; decide, rfl, ?_⟩
+  intro it hit
+  simp only [jd0, List.mem_cons, List.not_mem_nil, or_false] at hit
+  rcases hit with rfl | rfl | rfl | rfl | rfl | rfl
+  · trivial
+  · exact ⟨by intro as h; cases h; decide, by decide⟩
+  · intro k hk
+    simp only [List.mem_cons, List.not_mem_nil, or_false] at hk
+    rcases hk with rfl | rfl | rfl | rfl
+    · trivial
+    · refine ⟨by intro as h; cases h; decide, ?_⟩
+      intro c hc
+      simp only [List.mem_cons, List.not_mem_nil, or_false] at hc
+      rcases hc with rfl | rfl
+      · exact ⟨by intro as h; cases h; decide, rfl⟩
+      · trivial
+    · exact ⟨(by intro as h; cases h; decide), (by intro c hc; cases hc)⟩
+    · exact ⟨by intro as h; cases h; decide, rfl⟩
+  · exact ⟨by intro as h; cases h; decide, by decide⟩
+  · intro e he; simp at he; subst he; rfl
+  · intro k hk
+    simp only [List.mem_cons, List.not_mem_nil, or_false] at hk
+    rcases hk with rfl | rfl <;> trivial
+
+example : ∃ g, parseGlif (fun _ => some 0) (Spec.flatten jd0) = .ok g :=
+  judge_clean_accepted (fun _ _ => ⟨0, rfl⟩) jd0_clean jd0_shaped
+
+-- format 1 (the single named `move` point becomes an anchor)
+example : ∃ g, parseGlif (fun _ => some 0) (Spec.flatten jd1) = .ok g :=
+  judge_clean_accepted (fun _ _ => ⟨0, rfl⟩) jd1_clean
+    ⟨(by intro e he; cases he), (by intro as h; cases h; decide), rfl, (by
+      intro it hit
+      simp only [jd1, List.mem_cons, List.not_mem_nil, or_false] at hit
+      subst hit
+      intro k hk
+      simp only [List.mem_cons, List.not_mem_nil, or_false] at hk
+      subst hk
+      refine ⟨(by intro as h; cases h; decide), ?_⟩
+      intro c hc
+      simp only [List.mem_cons, List.not_mem_nil, or_false] at hc
+      subst hc
+      exact ⟨(by intro as h; cases h; decide), rfl⟩)⟩
 
 end Glif
